@@ -61,7 +61,7 @@ def run(pid, tier, seed):
                     chk.evaluations += 1
                     case = {"program": name, "rate": rate, "rng_seed": rng_seed, "steps": len(steps)}
                     chk.rel("corr.C18.stream_wellformed", not er.malformed, dict(case, detail=er.malformed[:3]))
-                    if tracer.traces and not any(st[0] == "gen_abandon" for st in steps):
+                    if tracer.traces or getattr(tracer, "thrown_into", None):
                         chk.fail("residue", dict(case, detail="%d per-call entries left in the tracer" % len(tracer.traces)))
 
                     def union(ys):
@@ -77,9 +77,16 @@ def run(pid, tier, seed):
                     want = [{kk: e[kk] for kk in ("qualname", "args", "ret", "yield")} for e in truth]
                     mine = [(t.func.__code__.co_qualname, tuple(sorted((n, ctr(v)) for n, v in t.arg_types.items())), ctr(t.return_type), ctr(t.yield_type))
                             for t in logger.traces]
-                    if not subsequence(mine, ref):
+                    # (order: a generator the workload dropped is closed when its last reference goes, which need not be the same
+                    #  moment in two runs; with such steps the logged traces are compared as a multiset, otherwise in order)
+                    import collections
+                    dropped = any(st[0] == "gen_abandon" for st in steps)
+                    included = (not (collections.Counter(mine) - collections.Counter(ref))) if dropped else subsequence(mine, ref)
+                    if not included:
                         bad = next((g for g in mine if g not in ref), None)
-                        chk.fail("distorted-vs-unsampled", dict(case, detail="a logged trace is not one of the traces of the unsampled run", trace=bad))
+                        chk.fail("distorted-vs-unsampled", dict(case, detail="a logged trace is not one of the traces of the unsampled run", trace=bad,
+                                                                 unsampled_traces_of_that_function=[r for r in ref if bad and r[0] == bad[0]][:12],
+                                                                 sampled_traces_of_that_function=[r for r in mine if bad and r[0] == bad[0]][:12]))
                     # ground truth comparison leaves asynchronous generators out (their unsampled description counts awaits as yields)
                     got = [g for g in got if g["qualname"] != "agen"]
                     want = [w for w in want if w["qualname"] != "agen"]
